@@ -1,5 +1,7 @@
 SPECIFICATION GenSpec
 CONSTANTS
+  BeginOnce = TRUE
+  UnorderedDst = {}
   MaxIdx = 3
   Timeouts = {0, 1, 2, 3}
   MaxH = 14
